@@ -13,7 +13,7 @@ from __future__ import annotations
 import itertools
 import json
 
-from ..monitors.reach import Reach
+from ..monitors.reach import Reach, opt
 
 ID = "C20"
 RULE = (
@@ -414,10 +414,10 @@ def run(shard, rec, rng):
     from werkzeug.sansio import utils as SU
 
     D = dbg.DebuggedApplication
-    reach = Reach(rec, {"host_is_trusted": SU.host_is_trusted, "get_host": SU.get_host, "DebuggedApplication.check_pin_trust": D.check_pin_trust,
-                        "DebuggedApplication.check_host_trust": D.check_host_trust, "DebuggedApplication.pin_auth": D.pin_auth, "DebuggedApplication._fail_pin_auth": D._fail_pin_auth,
-                        "DebuggedApplication.execute_command": D.execute_command, "DebuggedApplication.display_console": D.display_console,
-                        "DebuggedApplication.log_pin_request": D.log_pin_request, "DebuggedApplication.__call__": D.__call__})
+    reach = Reach(rec, {"host_is_trusted": opt(lambda: SU.host_is_trusted), "get_host": opt(lambda: SU.get_host), "DebuggedApplication.check_pin_trust": opt(lambda: D.check_pin_trust),
+                        "DebuggedApplication.check_host_trust": opt(lambda: D.check_host_trust), "DebuggedApplication.pin_auth": opt(lambda: D.pin_auth), "DebuggedApplication._fail_pin_auth": opt(lambda: D._fail_pin_auth),
+                        "DebuggedApplication.execute_command": opt(lambda: D.execute_command), "DebuggedApplication.display_console": opt(lambda: D.display_console),
+                        "DebuggedApplication.log_pin_request": opt(lambda: D.log_pin_request), "DebuggedApplication.__call__": opt(lambda: D.__call__)})
     cfg = TIERS[shard["_tier"]]
     idx, of = shard["index"], shard["of"]
     check_hosts(rec, rng, idx, of)
